@@ -342,7 +342,8 @@ def gen_cases(ctx, scale=1.0):
         pl = K * rng.choice([1, 1, 1, 2, 4])
         sizes = [rng.choice([0, 0, 1, 2, pl - 1, pl, pl + 1, rng.randint(1, 3 * pl), rng.randint(1, 50)])
                  for _ in range(n)]
-        paths = layouts.paths_for(n, rng, nested=True)
+        # a third of the layouts use names that are string prefixes of one another, differ in case only, …
+        paths = layouts.tricky_paths(n, rng) if rng.random() < 0.35 else layouts.paths_for(n, rng, nested=True)
         files = [{'path': p, 'size': s} for p, s in zip(paths, sizes)]
         nbad = rng.choice([0, 0, 1, 1, 2, n])
         bad = set(rng.sample(range(n), min(nbad, n)))
